@@ -431,9 +431,40 @@ def frag_dispatch():
     if inside + before != 2:
         raise ValueError("heterogeneous doEnqueue call sites not recognised (%d inside, %d before)" % (inside, before))
     out["heterEnqueue"] = inside == 0
-    text = GEN_HEADER % "eventdispatcher.h dispatch x2, eventqueue.h enqueue x2, hetereventqueue.h doEnqueue x2"
+    # every call of the getEvent policy, with the argument list its selection probe (HasFunctionGetEvent<Policies_, X>,
+    # which silently falls back to "the first argument is the event" when the policy is not callable with X) was
+    # instantiated with: the alias in scope is the nearest `using GetEvent = ...` before the call
+    def shape(x):
+        x = BoolExpr.norm(x)
+        if x in ("Args...", "A...", "args..."):
+            return "pack"
+        if x in ("T&&,Args...", "T&&,A...", "std::forward<T>(first),args..."):
+            return "first,pack"
+        return x
+    sites = []
+    for fn in ("eventdispatcher.h", "eventqueue.h", "hetereventdispatcher.h", "hetereventqueue.h"):
+        fsrc = strip_comments(read_src("include/eventpp/" + fn))
+        aliases = [(m.start(), m.group(1)) for m in re.finditer(r"using\s+GetEvent\s*=[^;]*?HasFunctionGetEvent<\s*Policies_\s*,([^;]*?)>::value\s*>::Type;", fsrc, re.S)]
+        k = 0
+        for m in re.finditer(r"GetEvent::getEvent\(", fsrc):
+            depth, j = 1, m.end()
+            while depth and j < len(fsrc):
+                depth += {"(": 1, ")": -1}.get(fsrc[j], 0)
+                j += 1
+            call = fsrc[m.end():j - 1]
+            before = [a for a in aliases if a[0] < m.start()]
+            probe = before[-1][1] if before else "<no alias in scope>"
+            sites.append(("%s#%d" % (fn, k), shape(probe), shape(call)))
+            k += 1
+    if len(sites) != 8:
+        raise ValueError("expected 8 calls of the getEvent policy, found %d" % len(sites))
+    text = GEN_HEADER % "eventdispatcher.h dispatch x2, eventqueue.h enqueue x2, hetereventqueue.h doEnqueue x2; every GetEvent::getEvent call with its selection probe"
     text += "namespace Evp.Gen.Dispatch\n\n/-- for each call expression: is reading the event sequenced before forwarding the arguments? -/\n"
     for k, v in out.items():
         text += "def %s : Bool := %s\n" % (k, "true" if v else "false")
-    text += "\ndef allSequenced : Bool := " + " && ".join(out.keys()) + "\n\nend Evp.Gen.Dispatch\n"
+    text += "\ndef allSequenced : Bool := " + " && ".join(out.keys()) + "\n"
+    text += "\n/-- (call site, argument list the getEvent selection probe was instantiated with, argument list of the call) -/\n"
+    text += "def getEventSites : List (String × String × String) := [\n"
+    text += ",\n".join('  ("%s", "%s", "%s")' % (a, b.replace('"', "'"), c.replace('"', "'")) for a, b, c in sites)
+    text += "\n]\n\nend Evp.Gen.Dispatch\n"
     return True, text, ""
